@@ -4,9 +4,10 @@
      nth                                                          — guard K_nth_before,
      count(<variable>, <nonterminal>, <literal>)                  — no guard: the insertion regime
                                                                     (K_count_insert) raises NotImpl in the
-                                                                    model and is excluded by the returns-premise.
+                                                                    model and is excluded by the returns-premise,
+     tree quantifiers WITH a match expression                     — guard K_mexpr_open (Eval3Mexpr.v).
    The induction re-uses the quantifier lemma (quant_mono) of Eval3Stable.v unchanged. *)
-From ISLA Require Import Eval3 EvalFacts GrammarFacts FuzzFacts PathFacts TreeFacts PredsFacts TreeOpsFacts Eval3Facts Eval3Compl Eval3Stable Eval3Preds.
+From ISLA Require Import Eval3 EvalFacts GrammarFacts FuzzFacts PathFacts TreeFacts PredsFacts TreeOpsFacts Eval3Facts Eval3Compl Eval3Stable Eval3Preds Eval3Mexpr.
 From Coq Require Import Lia ZArith.
 
 (* ------------------------------------------------------------------ *)
@@ -32,8 +33,18 @@ Section Frag2.
     | FSemPred _ args => count_args_ok args
     | FNot h => qfrag2 h
     | FAnd fs | FOr fs => forallb qfrag2 fs
-    | FForall _ _ m b | FExists _ _ m b => match m with None => qfrag2 b | Some _ => false end
+    | FForall _ _ _ b | FExists _ _ _ b => qfrag2 b
     | FForallInt _ _ | FExistsInt _ _ => false
+    end.
+
+  (* types of the quantifiers that carry a match expression *)
+  Fixpoint mtypes (f : formula A) : list str :=
+    match f with
+    | FSmt _ | FSPred _ _ | FSemPred _ _ => []
+    | FNot h => mtypes h
+    | FAnd fs | FOr fs => flat_map mtypes fs
+    | FForall v _ m b | FExists v _ m b => (match m with Some _ => [vtype v] | None => [] end) ++ mtypes b
+    | FForallInt _ b | FExistsInt _ b => mtypes b
     end.
 
   Variable g : grammar.
@@ -52,8 +63,8 @@ Section Frag2.
   | fr2_not : forall h h', frel2 h h' -> frel2 (FNot h) (FNot h')
   | fr2_and : forall fs fs', Forall2 frel2 fs fs' -> frel2 (FAnd fs) (FAnd fs')
   | fr2_or : forall fs fs', Forall2 frel2 fs fs' -> frel2 (FOr fs) (FOr fs')
-  | fr2_forall : forall v i i' b b', irel i i' -> frel2 b b' -> frel2 (FForall v i None b) (FForall v i' None b')
-  | fr2_exists : forall v i i' b b', irel i i' -> frel2 b b' -> frel2 (FExists v i None b) (FExists v i' None b').
+  | fr2_forall : forall v i i' m b b', irel i i' -> frel2 b b' -> frel2 (FForall v i m b) (FForall v i' m b')
+  | fr2_exists : forall v i i' m b b', irel i i' -> frel2 b b' -> frel2 (FExists v i m b) (FExists v i' m b').
 End Frag2.
 
 Lemma count_args_ok_inv args : count_args_ok args = true ->
@@ -78,8 +89,8 @@ Proof.
   - constructor. rewrite forallb_forall in Hf. induction IH as [|x l Hx _ IHl]; constructor.
     + apply Hx. apply Hf. left. reflexivity.
     + apply IHl. intros y Hy. apply Hf. right. assumption.
-  - destruct m; [discriminate|]. constructor; [apply irel_refl | auto].
-  - destruct m; [discriminate|]. constructor; [apply irel_refl | auto].
+  - constructor; [apply irel_refl | auto].
+  - constructor; [apply irel_refl | auto].
 Qed.
 
 Lemma qfrag2_numq A okc okn f : qfrag2 A okc okn f = true -> has_numq A f = false.
@@ -90,8 +101,6 @@ Proof.
     rewrite Hx; [|apply Hf; left; reflexivity]. apply IHl. intros y Hy. apply Hf. right. assumption.
   - rewrite forallb_forall in Hf. induction IH as [|x l Hx _ IHl]; [reflexivity|]. simpl.
     rewrite Hx; [|apply Hf; left; reflexivity]. apply IHl. intros y Hy. apply Hf. right. assumption.
-  - destruct m; [discriminate | auto].
-  - destruct m; [discriminate | auto].
 Qed.
 
 (* the old fragment is the extended one without consecutive, nth, count *)
@@ -125,8 +134,6 @@ Proof.
   - rewrite forallb_forall in *. rewrite Forall_forall in IH. intros x Hx. apply IH; auto.
     + intros E H. apply (Hc E). apply in_flat_map. eauto.
     + intros E H. apply (Hn E). apply in_flat_map. eauto.
-  - destruct m; [discriminate | auto].
-  - destruct m; [discriminate | auto].
 Qed.
 
 (* ------------------------------------------------------------------ *)
@@ -140,6 +147,33 @@ Definition K_cons_rel_open (A : Type) (t : tree) (f : formula A) : bool :=
    can still produce; refines K_nth_open (= uses nth and the tree is open) *)
 Definition K_nth_before (A : Type) (g : grammar) (t : tree) (f : formula A) : bool :=
   mem_str s_nth (spred_names A f) && nth_unsafe g t.
+
+(* K_mexpr_open: some node of the open tree that carries the type of a quantifier WITH match expression
+   is not a closed subtree (it is an open leaf or has an open leaf below it); outside this class a
+   match found on t is computed on a closed subtree and stays, and new matches need new nodes *)
+Definition K_mexpr_open (A : Type) (t : tree) (f : formula A) : bool :=
+  existsb (fun ps => mem_str (lbl (snd ps)) (mtypes A f) && is_openT (snd ps)) (nodes t).
+
+Lemma mtypes_qtypes A f : forall T, In T (mtypes A f) -> In T (qtypes A f).
+Proof.
+  induction f as [x|n args|n args|h IH|fs IH|fs IH|v i m b IH|v i m b IH|v b IH|v b IH] using formula_ind';
+    simpl; intros T HT; try contradiction; auto.
+  - rewrite Forall_forall in IH. apply in_flat_map in HT as (x & Hx & HT). apply in_flat_map. eauto.
+  - rewrite Forall_forall in IH. apply in_flat_map in HT as (x & Hx & HT). apply in_flat_map. eauto.
+  - apply in_app_iff in HT as [HT|HT]; [|right; auto]. destruct m; [|contradiction]. destruct HT as [<-|[]]. left. reflexivity.
+  - apply in_app_iff in HT as [HT|HT]; [|right; auto]. destruct m; [|contradiction]. destruct HT as [<-|[]]. left. reflexivity.
+Qed.
+
+Lemma guards_mx_ok A t (f : formula A) :
+  forallb is_nt (qtypes A f) = true -> K_mexpr_open A t f = false -> Forall (mx_ok t) (mtypes A f).
+Proof.
+  intros Hnt Hk. rewrite forallb_forall in Hnt. apply Forall_forall. intros T HT. split.
+  - apply Hnt. apply mtypes_qtypes. assumption.
+  - intros p n Hs Hl. unfold K_mexpr_open in Hk. apply nodes_spec in Hs.
+    pose proof (existsb_false_In _ _ _ Hk Hs) as X. simpl in X. rewrite Hl in X.
+    assert (M : mem_str T (mtypes A f) = true) by (apply mem_str_In; assumption).
+    rewrite M in X. exact X.
+Qed.
 
 Lemma K_nth_before_open A g t f : K_nth_before A g t f = true -> K_nth_open A t f = true.
 Proof.
@@ -231,13 +265,13 @@ Section Stable2.
   Qed.
 
   Theorem eval_mono2 : forall f f', frel2 A okc okn g arel f f' -> forall a a' r r',
-    asg_rel t t' a a' -> Forall (qt_ok g t) (qtypes A f) ->
+    asg_rel t t' a a' -> Forall (qt_ok g t) (qtypes A f) -> Forall (mx_ok t) (mtypes A f) ->
     ev f a = Ok r -> ev' f' a' = Ok r' -> tv_le r r'.
   Proof.
     induction f as [x|n args|n args|h IH|fs IH|fs IH|v i m b IH|v i m b IH|v b IH|v b IH] using formula_ind';
-      intros f' Hf a a' r r' Ha Hq H H';
+      intros f' Hf a a' r r' Ha Hq Hm H H';
       inversion Hf as [x0 x' Har | n0 args0 args' Hn Hargs | n0 x0 x0' needle num Hx Hnt | h0 h' Hh | fs0 fs' Hfs | fs0 fs' Hfs
-                       | v0 i0 i' b0 b' Hi Hb | v0 i0 i' b0 b' Hi Hb]; subst.
+                       | v0 i0 i' m0 b0 b' Hi Hb | v0 i0 i' m0 b0 b' Hi Hb]; subst.
     - eapply Hatom; eassumption.
     - simpl in H, H'. unfold eval_spred in H, H'.
       destruct (mapM (arg_inst t a) args) as [l|e] eqn:E; [|discriminate].
@@ -257,7 +291,8 @@ Section Stable2.
       eapply (collect_le _ _ _ fs fs' Hfs); [|exact E|exact E'].
       intros x x' y y' Hx Hx' HR Hy Hy'. rewrite Forall_forall in IH.
       eapply (IH x Hx x' HR a a'); try eassumption.
-      simpl in Hq. rewrite Forall_forall in *. intros T HT. apply Hq. apply in_flat_map. eauto.
+      + simpl in Hq. rewrite Forall_forall in *. intros T HT. apply Hq. apply in_flat_map. eauto.
+      + simpl in Hm. rewrite Forall_forall in *. intros T HT. apply Hm. apply in_flat_map. eauto.
     - simpl in H, H'.
       destruct (collect (map (fun g0 => ev g0 a) fs)) as [l|e] eqn:E; [|discriminate].
       destruct (collect (map (fun g0 => ev' g0 a') fs')) as [l'|e] eqn:E'; [|discriminate].
@@ -265,13 +300,20 @@ Section Stable2.
       eapply (collect_le _ _ _ fs fs' Hfs); [|exact E|exact E'].
       intros x x' y y' Hx Hx' HR Hy Hy'. rewrite Forall_forall in IH.
       eapply (IH x Hx x' HR a a'); try eassumption.
-      simpl in Hq. rewrite Forall_forall in *. intros T HT. apply Hq. apply in_flat_map. eauto.
-    - simpl in Hq. inversion Hq as [|T l HT Hl]; subst.
-      eapply (quant_mono qmm' g t t' Hc Hcl Hu Hrc true v i i' _ _ a a' r r' Hi Ha HT); [|exact H|exact H'].
-      intros na na' x x' Hna Hx Hx'. eapply IH; eassumption.
-    - simpl in Hq. inversion Hq as [|T l HT Hl]; subst.
-      eapply (quant_mono qmm' g t t' Hc Hcl Hu Hrc false v i i' _ _ a a' r r' Hi Ha HT); [|exact H|exact H'].
-      intros na na' x x' Hna Hx Hx'. eapply IH; eassumption.
+      + simpl in Hq. rewrite Forall_forall in *. intros T HT. apply Hq. apply in_flat_map. eauto.
+      + simpl in Hm. rewrite Forall_forall in *. intros T HT. apply Hm. apply in_flat_map. eauto.
+    - simpl in Hq. inversion Hq as [|T l HT Hl]; subst. simpl in Hm. destruct m as [me|].
+      + inversion Hm as [|T' l' HT' Hl']; subst.
+        eapply (quant_mono_mx qmm' g t t' Hc Hcl Hu Hrc true v i i' me _ _ a a' r r' Hi Ha HT'); [|exact H|exact H'].
+        intros na na' x x' Hna Hx Hx'. eapply IH; eassumption.
+      + eapply (quant_mono qmm' g t t' Hc Hcl Hu Hrc true v i i' _ _ a a' r r' Hi Ha HT); [|exact H|exact H'].
+        intros na na' x x' Hna Hx Hx'. eapply IH; eassumption.
+    - simpl in Hq. inversion Hq as [|T l HT Hl]; subst. simpl in Hm. destruct m as [me|].
+      + inversion Hm as [|T' l' HT' Hl']; subst.
+        eapply (quant_mono_mx qmm' g t t' Hc Hcl Hu Hrc false v i i' me _ _ a a' r r' Hi Ha HT'); [|exact H|exact H'].
+        intros na na' x x' Hna Hx Hx'. eapply IH; eassumption.
+      + eapply (quant_mono qmm' g t t' Hc Hcl Hu Hrc false v i i' _ _ a a' r r' Hi Ha HT); [|exact H|exact H'].
+        intros na na' x x' Hna Hx Hx'. eapply IH; eassumption.
   Qed.
 End Stable2.
 
@@ -285,9 +327,34 @@ Section Inst2.
   Hypothesis Hcl : is_openT t' = false.
   Variables okc okn : bool.
 
+  (* the list case of the instantiation lemma *)
+  Lemma inst_list cst fs :
+    Forall (fun f => forall f1 f2, qfrag2 atom3 okc okn f = true ->
+       inst_const atom3 ainst3 t cst f = Ok f1 -> inst_const atom3 ainst3 t' cst f = Ok f2 ->
+       frel2 atom3 okc okn g (arel3 t t') f1 f2 /\ qtypes atom3 f1 = qtypes atom3 f /\ mtypes atom3 f1 = mtypes atom3 f /\
+       has_numq atom3 f1 = false /\ has_numq atom3 f2 = false) fs ->
+    forallb (qfrag2 atom3 okc okn) fs = true -> forall l1 l2,
+    mapM (inst_const atom3 ainst3 t cst) fs = Ok l1 -> mapM (inst_const atom3 ainst3 t' cst) fs = Ok l2 ->
+    Forall2 (frel2 atom3 okc okn g (arel3 t t')) l1 l2 /\ flat_map (qtypes atom3) l1 = flat_map (qtypes atom3) fs /\
+    flat_map (mtypes atom3) l1 = flat_map (mtypes atom3) fs /\
+    existsb (has_numq atom3) l1 = false /\ existsb (has_numq atom3) l2 = false.
+  Proof.
+    intros IH. induction IH as [|x fs Hx _ IHl]; intros Hf l1 l2 E1 E2; simpl in E1, E2.
+    - inversion E1; inversion E2; subst. repeat split. constructor.
+    - simpl in Hf. apply andb_true_iff in Hf as [Hfx Hfl].
+      destruct (inst_const atom3 ainst3 t cst x) as [y1|e] eqn:Ey1; [|discriminate].
+      destruct (mapM (inst_const atom3 ainst3 t cst) fs) as [ys1|e] eqn:Em1; [|discriminate].
+      destruct (inst_const atom3 ainst3 t' cst x) as [y2|e] eqn:Ey2; [|discriminate].
+      destruct (mapM (inst_const atom3 ainst3 t' cst) fs) as [ys2|e] eqn:Em2; [|discriminate].
+      inversion E1; inversion E2; subst.
+      destruct (Hx y1 y2 Hfx eq_refl eq_refl) as (Hr & Hq & Hm & Hn1 & Hn2).
+      destruct (IHl Hfl ys1 ys2 eq_refl eq_refl) as (Hrs & Hqs & Hms & Hns1 & Hns2).
+      simpl. rewrite Hq, Hqs, Hm, Hms, Hn1, Hn2, Hns1, Hns2. repeat split. constructor; assumption.
+  Qed.
+
   Lemma inst_frel2 cst : forall f f1 f2, qfrag2 atom3 okc okn f = true ->
     inst_const atom3 ainst3 t cst f = Ok f1 -> inst_const atom3 ainst3 t' cst f = Ok f2 ->
-    frel2 atom3 okc okn g (arel3 t t') f1 f2 /\ qtypes atom3 f1 = qtypes atom3 f /\
+    frel2 atom3 okc okn g (arel3 t t') f1 f2 /\ qtypes atom3 f1 = qtypes atom3 f /\ mtypes atom3 f1 = mtypes atom3 f /\
     has_numq atom3 f1 = false /\ has_numq atom3 f2 = false.
   Proof.
     induction f as [x|n args|n args|h IH|fs IH|fs IH|v i m b IH|v i m b IH|v b IH|v b IH] using formula_ind';
@@ -300,69 +367,44 @@ Section Inst2.
       simpl. destruct (var_eqb v cst); constructor; assumption.
     - destruct (inst_const atom3 ainst3 t cst h) as [h1|e] eqn:E1; [|discriminate].
       destruct (inst_const atom3 ainst3 t' cst h) as [h2|e] eqn:E2; [|discriminate].
-      inversion H1; inversion H2; subst. destruct (IH h1 h2 Hf eq_refl eq_refl) as (Hr & Hq & Hn1 & Hn2).
+      inversion H1; inversion H2; subst. destruct (IH h1 h2 Hf eq_refl eq_refl) as (Hr & Hq & Hm & Hn1 & Hn2).
       repeat split; try assumption. constructor. assumption.
     - destruct (mapM (inst_const atom3 ainst3 t cst) fs) as [l1|e] eqn:E1; [|discriminate].
       destruct (mapM (inst_const atom3 ainst3 t' cst) fs) as [l2|e] eqn:E2; [|discriminate].
       inversion H1; inversion H2; subst. clear H1 H2.
-      assert (X : Forall2 (frel2 atom3 okc okn g (arel3 t t')) l1 l2 /\ flat_map (qtypes atom3) l1 = flat_map (qtypes atom3) fs /\
-                  existsb (has_numq atom3) l1 = false /\ existsb (has_numq atom3) l2 = false).
-      { revert l1 l2 E1 E2. induction IH as [|x fs Hx _ IHl]; intros l1 l2 E1 E2; simpl in E1, E2.
-        - inversion E1; inversion E2; subst. repeat split. constructor.
-        - simpl in Hf. apply andb_true_iff in Hf as [Hfx Hfl].
-          destruct (inst_const atom3 ainst3 t cst x) as [y1|e] eqn:Ey1; [|discriminate].
-          destruct (mapM (inst_const atom3 ainst3 t cst) fs) as [ys1|e] eqn:Em1; [|discriminate].
-          destruct (inst_const atom3 ainst3 t' cst x) as [y2|e] eqn:Ey2; [|discriminate].
-          destruct (mapM (inst_const atom3 ainst3 t' cst) fs) as [ys2|e] eqn:Em2; [|discriminate].
-          inversion E1; inversion E2; subst.
-          destruct (Hx y1 y2 Hfx eq_refl eq_refl) as (Hr & Hq & Hn1 & Hn2).
-          destruct (IHl Hfl ys1 ys2 eq_refl eq_refl) as (Hrs & Hqs & Hns1 & Hns2).
-          simpl. rewrite Hq, Hqs, Hn1, Hn2, Hns1, Hns2. repeat split. constructor; assumption. }
-      destruct X as (Hr & Hq & Hn1 & Hn2). repeat split; try assumption. constructor. assumption.
+      destruct (inst_list cst fs IH Hf l1 l2 E1 E2) as (Hr & Hq & Hm & Hn1 & Hn2). repeat split; try assumption. constructor. assumption.
     - destruct (mapM (inst_const atom3 ainst3 t cst) fs) as [l1|e] eqn:E1; [|discriminate].
       destruct (mapM (inst_const atom3 ainst3 t' cst) fs) as [l2|e] eqn:E2; [|discriminate].
       inversion H1; inversion H2; subst. clear H1 H2.
-      assert (X : Forall2 (frel2 atom3 okc okn g (arel3 t t')) l1 l2 /\ flat_map (qtypes atom3) l1 = flat_map (qtypes atom3) fs /\
-                  existsb (has_numq atom3) l1 = false /\ existsb (has_numq atom3) l2 = false).
-      { revert l1 l2 E1 E2. induction IH as [|x fs Hx _ IHl]; intros l1 l2 E1 E2; simpl in E1, E2.
-        - inversion E1; inversion E2; subst. repeat split. constructor.
-        - simpl in Hf. apply andb_true_iff in Hf as [Hfx Hfl].
-          destruct (inst_const atom3 ainst3 t cst x) as [y1|e] eqn:Ey1; [|discriminate].
-          destruct (mapM (inst_const atom3 ainst3 t cst) fs) as [ys1|e] eqn:Em1; [|discriminate].
-          destruct (inst_const atom3 ainst3 t' cst x) as [y2|e] eqn:Ey2; [|discriminate].
-          destruct (mapM (inst_const atom3 ainst3 t' cst) fs) as [ys2|e] eqn:Em2; [|discriminate].
-          inversion E1; inversion E2; subst.
-          destruct (Hx y1 y2 Hfx eq_refl eq_refl) as (Hr & Hq & Hn1 & Hn2).
-          destruct (IHl Hfl ys1 ys2 eq_refl eq_refl) as (Hrs & Hqs & Hns1 & Hns2).
-          simpl. rewrite Hq, Hqs, Hn1, Hn2, Hns1, Hns2. repeat split. constructor; assumption. }
-      destruct X as (Hr & Hq & Hn1 & Hn2). repeat split; try assumption. constructor. assumption.
-    - destruct m; [discriminate|].
-      destruct (inst_const atom3 ainst3 t cst b) as [b1|e] eqn:E1; [|discriminate].
+      destruct (inst_list cst fs IH Hf l1 l2 E1 E2) as (Hr & Hq & Hm & Hn1 & Hn2). repeat split; try assumption. constructor. assumption.
+    - destruct (inst_const atom3 ainst3 t cst b) as [b1|e] eqn:E1; [|discriminate].
       destruct (inst_const atom3 ainst3 t' cst b) as [b2|e] eqn:E2; [|discriminate].
-      inversion H1; inversion H2; subst. destruct (IH b1 b2 Hf eq_refl eq_refl) as (Hr & Hq & Hn1 & Hn2).
-      simpl. rewrite Hq. repeat split; try assumption. constructor; [apply (inst_in_rel g t t' Hc) | assumption].
-    - destruct m; [discriminate|].
-      destruct (inst_const atom3 ainst3 t cst b) as [b1|e] eqn:E1; [|discriminate].
+      inversion H1; inversion H2; subst. destruct (IH b1 b2 Hf eq_refl eq_refl) as (Hr & Hq & Hm & Hn1 & Hn2).
+      simpl. rewrite Hq, Hm. repeat split; try assumption. constructor; [apply (inst_in_rel g t t' Hc) | assumption].
+    - destruct (inst_const atom3 ainst3 t cst b) as [b1|e] eqn:E1; [|discriminate].
       destruct (inst_const atom3 ainst3 t' cst b) as [b2|e] eqn:E2; [|discriminate].
-      inversion H1; inversion H2; subst. destruct (IH b1 b2 Hf eq_refl eq_refl) as (Hr & Hq & Hn1 & Hn2).
-      simpl. rewrite Hq. repeat split; try assumption. constructor; [apply (inst_in_rel g t t' Hc) | assumption].
+      inversion H1; inversion H2; subst. destruct (IH b1 b2 Hf eq_refl eq_refl) as (Hr & Hq & Hm & Hn1 & Hn2).
+      simpl. rewrite Hq, Hm. repeat split; try assumption. constructor; [apply (inst_in_rel g t t' Hc) | assumption].
   Qed.
 End Inst2.
 
 (* ------------------------------------------------------------------ *)
 (* the theorems at the level of evaluate()                             *)
 (* ------------------------------------------------------------------ *)
-(* the syntactic fragment: everything of qfrag plus consecutive, nth, count(var, nonterminal, literal) *)
+(* the syntactic fragment: everything of qfrag plus consecutive, nth, count(var, nonterminal, literal),
+   and tree quantifiers with match expressions *)
 Definition qfragP (f : formula atom3) : bool := qfrag2 atom3 true true f.
 
 Theorem verdict_mono_preds g t t' cst f v v' :
   compl g t t' -> is_openT t' = false -> uniq_ids t' -> reach_closedb g = true ->
   qfragP f = true -> forallb is_nt (qtypes atom3 f) = true ->
   K_selfrec_open atom3 g t f = false -> K_cons_rel_open atom3 t f = false -> K_nth_before atom3 g t f = false ->
+  K_mexpr_open atom3 t f = false ->
   m3_evaluate g t cst f = Ok v -> m3_evaluate g t' cst f = Ok v' -> tv_le v v'.
 Proof.
-  intros Hc Hcl Hu Hrc Hf Hnt Hk Hkc Hkn H H'. unfold m3_evaluate, evaluate in H, H'.
+  intros Hc Hcl Hu Hrc Hf Hnt Hk Hkc Hkn Hkm H H'. unfold m3_evaluate, evaluate in H, H'.
   pose proof (guards_qt_ok g t f Hnt Hk) as Hq.
+  pose proof (guards_mx_ok atom3 t f Hnt Hkm) as Hm.
   pose proof (guards_frag2 atom3 g t f Hf Hkc Hkn) as Hf2.
   set (okc := negb (cons_unsafe t)) in *. set (okn := negb (nth_unsafe g t)) in *.
   assert (Hokc : okc = true -> cons_unsafe t = false) by (subst okc; intro E; apply negb_true_iff in E; exact E).
@@ -370,14 +412,14 @@ Proof.
   destruct (existsb (var_eqb cst) (fvars atom3 afree3 f)).
   - destruct (inst_const atom3 ainst3 t cst f) as [f1|e] eqn:E1; [|discriminate].
     destruct (inst_const atom3 ainst3 t' cst f) as [f2|e] eqn:E2; [|discriminate].
-    destruct (inst_frel2 g t t' Hc Hcl okc okn cst f f1 f2 Hf2 E1 E2) as (Hr & Hqt & Hn1 & Hn2).
-    rewrite Hn1 in H. rewrite Hn2 in H'. rewrite <- Hqt in Hq.
+    destruct (inst_frel2 g t t' Hc Hcl okc okn cst f f1 f2 Hf2 E1 E2) as (Hr & Hqt & Hmt & Hn1 & Hn2).
+    rewrite Hn1 in H. rewrite Hn2 in H'. rewrite <- Hqt in Hq. rewrite <- Hmt in Hm.
     eapply (eval_mono2 atom3 afree3 aopen3 aeval3 (m3_qmm g t') (arel3 t t') okc okn g t t' Hc Hcl Hu Hrc Hokc Hokn);
-      [| exact Hr | constructor | exact Hq | exact H | exact H'].
+      [| exact Hr | constructor | exact Hq | exact Hm | exact H | exact H'].
     intros x x' a a' r r'. apply (atom3_mono g t t' Hc).
   - rewrite (qfrag2_numq atom3 okc okn f Hf2) in H, H'.
     eapply (eval_mono2 atom3 afree3 aopen3 aeval3 (m3_qmm g t') (arel3 t t') okc okn g t t' Hc Hcl Hu Hrc Hokc Hokn);
-      [| apply frel2_refl; [intro x; left; reflexivity | exact Hf2] | constructor | exact Hq | exact H | exact H'].
+      [| apply frel2_refl; [intro x; left; reflexivity | exact Hf2] | constructor | exact Hq | exact Hm | exact H | exact H'].
     intros x x' a a' r r'. apply (atom3_mono g t t' Hc).
 Qed.
 
@@ -385,10 +427,11 @@ Theorem verdict_stable_preds g t t' cst f v v' :
   compl g t t' -> is_openT t' = false -> uniq_ids t' -> reach_closedb g = true ->
   qfragP f = true -> forallb is_nt (qtypes atom3 f) = true ->
   K_selfrec_open atom3 g t f = false -> K_cons_rel_open atom3 t f = false -> K_nth_before atom3 g t f = false ->
+  K_mexpr_open atom3 t f = false ->
   m3_evaluate g t cst f = Ok v -> v <> UU -> m3_evaluate g t' cst f = Ok v' -> v' = v.
 Proof.
-  intros Hc Hcl Hu Hrc Hf Hnt Hk Hkc Hkn H Hv H'.
-  destruct (verdict_mono_preds g t t' cst f v v' Hc Hcl Hu Hrc Hf Hnt Hk Hkc Hkn H H') as [X|X]; [contradiction | auto].
+  intros Hc Hcl Hu Hrc Hf Hnt Hk Hkc Hkn Hkm H Hv H'.
+  destruct (verdict_mono_preds g t t' cst f v v' Hc Hcl Hu Hrc Hf Hnt Hk Hkc Hkn Hkm H H') as [X|X]; [contradiction | auto].
 Qed.
 
 (* the fragment contains the old one *)
@@ -499,3 +542,71 @@ Qed.
 (* the recorded K_nth_open witness (Eval3Facts.nth_unstable_refuted) lies in the refined class *)
 Example nth_witness_in_K_nth_before : K_nth_before atom3 NTH_g NTH_t NTH_f = true.
 Proof. vm_compute. reflexivity. Qed.
+
+(* ---- quantifiers with match expressions: non-vacuity ---- *)
+Definition MX_g : grammar := [([60;115;116;97;114;116;62]%N, [[[60;97;62]%N; [60;98;62]%N]]); ([60;97;62]%N, [[[40]%N; [60;99;62]%N; [41]%N]]); ([60;99;62]%N, [[[49]%N]; [[51]%N]]); ([60;98;62]%N, [[[60;101;62]%N; [60;101;62]%N]]); ([60;101;62]%N, [[[50]%N]])].
+Definition MX_t : tree := (Node [60;115;116;97;114;116;62]%N 10%N false [(Node [60;97;62]%N 4%N false [(Node [40]%N 0%N false []); (Node [60;99;62]%N 2%N false [(Node [49]%N 1%N false [])]); (Node [41]%N 3%N false [])]); (Node [60;98;62]%N 9%N true [])]).
+Definition MX_t' : tree := (Node [60;115;116;97;114;116;62]%N 10%N false [(Node [60;97;62]%N 4%N false [(Node [40]%N 0%N false []); (Node [60;99;62]%N 2%N false [(Node [49]%N 1%N false [])]); (Node [41]%N 3%N false [])]); (Node [60;98;62]%N 9%N false [(Node [60;101;62]%N 6%N false [(Node [50]%N 5%N false [])]); (Node [60;101;62]%N 8%N false [(Node [50]%N 7%N false [])])])]).
+(* forall <a> v="({<c> x})" in start: (= x "1") : TRUE on `(1)<b>`, TRUE on `(1)22` *)
+Definition MX_f1 : formula atom3 := lift3 (FForall (MkVar VBound [118]%N [60;97;62]%N) (InVar (MkVar VConst [115;116;97;114;116]%N [60;115;116;97;114;116;62]%N)) (Some (MkMexpr [(MkVar VDummy [68;85;77;77;89;95;48]%N [40]%N); (MkVar VBound [120]%N [60;99;62]%N); (MkVar VDummy [68;85;77;77;89;95;49]%N [41]%N)] [((Node [60;97;62]%N 42%N false [(Node [40]%N 39%N false []); (Node [60;99;62]%N 40%N true []); (Node [41]%N 41%N false [])]), [((MkVar VDummy [68;85;77;77;89;95;50]%N [40]%N), [0]%nat); ((MkVar VBound [120]%N [60;99;62]%N), [1]%nat); ((MkVar VDummy [68;85;77;77;89;95;51]%N [41]%N), [2]%nat)])])) (FSmt (AStr false (SVar (MkVar VBound [120]%N [60;99;62]%N)) (SLit [49]%N)))).
+(* exists <a> v="({<c> x})" in start: (= x "3") : FALSE on `(1)<b>`, FALSE on `(1)22` *)
+Definition MX_f2 : formula atom3 := lift3 (FExists (MkVar VBound [118]%N [60;97;62]%N) (InVar (MkVar VConst [115;116;97;114;116]%N [60;115;116;97;114;116;62]%N)) (Some (MkMexpr [(MkVar VDummy [68;85;77;77;89;95;54]%N [40]%N); (MkVar VBound [120]%N [60;99;62]%N); (MkVar VDummy [68;85;77;77;89;95;55]%N [41]%N)] [((Node [60;97;62]%N 74%N false [(Node [40]%N 71%N false []); (Node [60;99;62]%N 72%N true []); (Node [41]%N 73%N false [])]), [((MkVar VDummy [68;85;77;77;89;95;56]%N [40]%N), [0]%nat); ((MkVar VBound [120]%N [60;99;62]%N), [1]%nat); ((MkVar VDummy [68;85;77;77;89;95;57]%N [41]%N), [2]%nat)])])) (FSmt (AStr false (SVar (MkVar VBound [120]%N [60;99;62]%N)) (SLit [51]%N)))).
+Definition MY_g : grammar := [([60;115;116;97;114;116;62]%N, [[[60;115;116;109;116;62]%N]]); ([60;115;116;109;116;62]%N, [[[60;97;115;115;103;110;62]%N]; [[60;97;115;115;103;110;62]%N; [32;59;32]%N; [60;115;116;109;116;62]%N]]); ([60;97;115;115;103;110;62]%N, [[[60;118;97;114;62]%N; [32;58;61;32]%N; [60;114;104;115;62]%N]]); ([60;114;104;115;62]%N, [[[60;118;97;114;62]%N]; [[60;100;105;103;105;116;62]%N]]); ([60;118;97;114;62]%N, [[[120]%N]; [[121]%N]]); ([60;100;105;103;105;116;62]%N, [[[49]%N]; [[50]%N]])].
+Definition MY_t : tree := (Node [60;115;116;97;114;116;62]%N 17%N false [(Node [60;115;116;109;116;62]%N 16%N false [(Node [60;97;115;115;103;110;62]%N 6%N false [(Node [60;118;97;114;62]%N 1%N false [(Node [120]%N 0%N false [])]); (Node [32;58;61;32]%N 2%N false []); (Node [60;114;104;115;62]%N 5%N false [(Node [60;100;105;103;105;116;62]%N 4%N false [(Node [49]%N 3%N false [])])])]); (Node [32;59;32]%N 7%N false []); (Node [60;115;116;109;116;62]%N 15%N true [])])]).
+Definition MY_t' : tree := (Node [60;115;116;97;114;116;62]%N 17%N false [(Node [60;115;116;109;116;62]%N 16%N false [(Node [60;97;115;115;103;110;62]%N 6%N false [(Node [60;118;97;114;62]%N 1%N false [(Node [120]%N 0%N false [])]); (Node [32;58;61;32]%N 2%N false []); (Node [60;114;104;115;62]%N 5%N false [(Node [60;100;105;103;105;116;62]%N 4%N false [(Node [49]%N 3%N false [])])])]); (Node [32;59;32]%N 7%N false []); (Node [60;115;116;109;116;62]%N 15%N false [(Node [60;97;115;115;103;110;62]%N 14%N false [(Node [60;118;97;114;62]%N 9%N false [(Node [121]%N 8%N false [])]); (Node [32;58;61;32]%N 10%N false []); (Node [60;114;104;115;62]%N 13%N false [(Node [60;100;105;103;105;116;62]%N 12%N false [(Node [50]%N 11%N false [])])])])])])]).
+(* exists <assgn> a="{<var> l} := {<rhs> r}" in start: (= l "x") : TRUE on `x := 1 ; <stmt>`, TRUE on `x := 1 ; y := 2` *)
+Definition MY_f1 : formula atom3 := lift3 (FExists (MkVar VBound [97]%N [60;97;115;115;103;110;62]%N) (InVar (MkVar VConst [115;116;97;114;116]%N [60;115;116;97;114;116;62]%N)) (Some (MkMexpr [(MkVar VBound [108]%N [60;118;97;114;62]%N); (MkVar VDummy [68;85;77;77;89;95;49;50]%N [32;58;61;32]%N); (MkVar VBound [114]%N [60;114;104;115;62]%N)] [((Node [60;97;115;115;103;110;62]%N 136%N false [(Node [60;118;97;114;62]%N 133%N true []); (Node [32;58;61;32]%N 134%N false []); (Node [60;114;104;115;62]%N 135%N true [])]), [((MkVar VBound [108]%N [60;118;97;114;62]%N), [0]%nat); ((MkVar VDummy [68;85;77;77;89;95;50;51]%N [32;58;61;32]%N), [1]%nat); ((MkVar VBound [114]%N [60;114;104;115;62]%N), [2]%nat)])])) (FSmt (AStr false (SVar (MkVar VBound [108]%N [60;118;97;114;62]%N)) (SLit [120]%N)))).
+
+(* every premise of verdict_stable_preds holds for formulas WITH a match expression and a definite
+   verdict on the open tree: the <a> node of `(1)<b>` is a closed subtree and the open <b> cannot
+   produce an <a>; the first <assgn> of `x := 1 ; <stmt>` is closed and is the witness *)
+Example verdict_stable_mexpr_example :
+  (compl MX_g MX_t MX_t' /\ is_openT MX_t' = false /\ uniq_ids MX_t' /\ reach_closedb MX_g = true /\ is_openT MX_t = true /\
+   qfragP MX_f1 = true /\ has_mexpr atom3 MX_f1 = true /\ forallb is_nt (qtypes atom3 MX_f1) = true /\
+   K_selfrec_open atom3 MX_g MX_t MX_f1 = false /\ K_cons_rel_open atom3 MX_t MX_f1 = false /\
+   K_nth_before atom3 MX_g MX_t MX_f1 = false /\ K_mexpr_open atom3 MX_t MX_f1 = false /\
+   m3_evaluate MX_g MX_t W_cst3 MX_f1 = Ok TT /\ m3_evaluate MX_g MX_t' W_cst3 MX_f1 = Ok TT /\
+   qfragP MX_f2 = true /\ K_mexpr_open atom3 MX_t MX_f2 = false /\
+   m3_evaluate MX_g MX_t W_cst3 MX_f2 = Ok FF /\ m3_evaluate MX_g MX_t' W_cst3 MX_f2 = Ok FF) /\
+  (compl MY_g MY_t MY_t' /\ is_openT MY_t' = false /\ uniq_ids MY_t' /\ reach_closedb MY_g = true /\ is_openT MY_t = true /\
+   qfragP MY_f1 = true /\ has_mexpr atom3 MY_f1 = true /\ forallb is_nt (qtypes atom3 MY_f1) = true /\
+   K_selfrec_open atom3 MY_g MY_t MY_f1 = false /\ K_cons_rel_open atom3 MY_t MY_f1 = false /\
+   K_nth_before atom3 MY_g MY_t MY_f1 = false /\ K_mexpr_open atom3 MY_t MY_f1 = false /\
+   m3_evaluate MY_g MY_t W_cst3 MY_f1 = Ok TT /\ m3_evaluate MY_g MY_t' W_cst3 MY_f1 = Ok TT).
+Proof.
+  split.
+  - split; [unfold MX_t, MX_t'; compl_tac|].
+    split; [vm_compute; reflexivity|].
+    split; [apply uniq_idsb_spec; vm_compute; reflexivity|].
+    repeat split; vm_compute; reflexivity.
+  - split; [unfold MY_t, MY_t'; compl_tac|].
+    split; [vm_compute; reflexivity|].
+    split; [apply uniq_idsb_spec; vm_compute; reflexivity|].
+    repeat split; vm_compute; reflexivity.
+Qed.
+
+(* formulas without match expression are never in K_mexpr_open *)
+Lemma no_mexpr_mtypes A f : has_mexpr A f = false -> mtypes A f = [].
+Proof.
+  induction f as [x|n args|n args|h IH|fs IH|fs IH|v i m b IH|v i m b IH|v b IH|v b IH] using formula_ind';
+    simpl; intro Hf; try reflexivity; auto.
+  - induction IH as [|x l Hx _ IHl]; [reflexivity|]. simpl in *. apply orb_false_iff in Hf as [H1 H2].
+    rewrite (Hx H1), (IHl H2). reflexivity.
+  - induction IH as [|x l Hx _ IHl]; [reflexivity|]. simpl in *. apply orb_false_iff in Hf as [H1 H2].
+    rewrite (Hx H1), (IHl H2). reflexivity.
+  - destruct m; [discriminate|]. simpl in *. auto.
+  - destruct m; [discriminate|]. simpl in *. auto.
+Qed.
+
+Theorem no_mexpr_not_K A t f : has_mexpr A f = false -> K_mexpr_open A t f = false.
+Proof.
+  intro Hf. unfold K_mexpr_open. rewrite (no_mexpr_mtypes A f Hf).
+  induction (nodes t) as [|x l IH]; [reflexivity|]. simpl. exact IH.
+Qed.
+
+(* the instances of verdict_stable_preds_example satisfy the fourth guard too *)
+Example preds_examples_not_K_mexpr :
+  K_mexpr_open atom3 CX_t CX_f1 = false /\ K_mexpr_open atom3 CX_t CX_f2 = false /\
+  K_mexpr_open atom3 NX_t NX_f1 = false /\ K_mexpr_open atom3 NX_t NX_f5 = false /\
+  K_mexpr_open atom3 NY_t NY_f1 = false /\ K_mexpr_open atom3 NY_t NY_f2 = false /\ K_mexpr_open atom3 NY_t NY_f3 = false.
+Proof. repeat split; vm_compute; reflexivity. Qed.
